@@ -112,6 +112,10 @@ def relations(out, m, A, B, Cu, mag, k, where, strict, tol_rt, tol_route, prop="
         out.inconclusive = "float-range"
         return False
     fm = Fraction(mag)
+    if fab != 0 and not (convgen.LO < abs(fab) < convgen.HI):
+        # the converted magnitude itself leaves the range in which doubles keep full precision
+        out.inconclusive = "float-range"
+        return False
     # (i) zero, sign
     if fm == 0 and fab != 0:
         out.fail(f"{prop}:zero:{where}", f"(0*{A}).in_unit({B}) = {ab.magnitude!r}")
@@ -148,6 +152,10 @@ def relations(out, m, A, B, Cu, mag, k, where, strict, tol_rt, tol_route, prop="
             out.classes.append("roundtrip-checked" + ("" if strict else ":outside"))
         # (ii) route independence
         ac, e5 = _conv(q, Cu)
+        fac = None if ac is None else _frac(ac.magnitude)
+        if ac is not None and (fac is None or (fac != 0 and not (convgen.LO < abs(fac) < convgen.HI))):
+            out.inconclusive = "float-range"
+            ac = None
         if ac is not None:
             acb, e6 = _conv(ac, B)
             if acb is not None:
